@@ -90,7 +90,7 @@ def validate(ctx, module, files, tag, canary_fn):
     accepted = set(json.loads(l)["accept"] for l in open(res.beh_path))
     for c in canaries:
         if c in accepted:
-            raise MachineryFault("canary %s accepted by %s" % (c, module))
+            ctx.defer_fault("canary %s accepted by %s" % (c, module))
     if res.violated:
         raise MachineryFault("%s: invariant %s failed on a recorded execution" % (module, res.violated))
     return ids, accepted
